@@ -628,7 +628,15 @@ func c03QuicOverlap(c *choice.Ctx, rep *report.R) {
 		perms = [][]int{{0, 1, 2}, {0, 2, 1}, {1, 0, 2}, {1, 2, 0}, {2, 0, 1}, {2, 1, 0}}
 	}
 	perm := perms[c.Choose(len(perms), "completion-order")]
-	desc := fmt.Sprintf("%d overlapping DoQ streams on one connection, upstream answers in order %v", n, perm)
+	// the listener's idle time-out: the default, or one shorter than the pause between two upstream replies - a connection with a
+	// query in flight is not idle, however long ago its last stream was opened or finished
+	gap := []time.Duration{0, 2500 * time.Millisecond}[c.Choose(2, "gap-between-replies")]
+	if gap > 0 {
+		was := seamIdle
+		seamIdle = 2 * time.Second
+		defer func() { seamIdle = was }()
+	}
+	desc := fmt.Sprintf("%d overlapping DoQ streams on one connection, upstream answers in order %v, %v apart (listener idle time-out %v)", n, perm, gap, min(seamIdle, defaultQuicIdleTimeout))
 	fail := func(sig, msg string) {
 		rep.Violate("C03:quic:overlap:"+sig, msg+"\n  "+desc, map[string]any{"Choices": c.Choices(), "QuicOverlap": true})
 	}
@@ -667,6 +675,10 @@ func c03QuicOverlap(c *choice.Ctx, rep *report.R) {
 			}
 		}
 		wait()
+		if gap > 0 {
+			hsleep(gap)
+			wait()
+		}
 	}
 	hsleep(7 * time.Second)
 	wait()
